@@ -79,10 +79,23 @@ def body(ctx, case):
             classes.add("t>2^20")
     ctx.record((steps, rate, accel, accum), classes, nontrivial)
 
-    got = call_sut(ebb_calc.calculate_lm, steps, rate, accel, accum)
+    # calculate_lm must not depend on what an earlier call (the library's own predictors leave 30 digits behind)
+    # or the caller left in mpmath's global context: by default a fresh interpreter has 15 digits / 53 bits
+    import mpmath
+    ambient = case.get("ambient", 15)
+    saved = mpmath.mp.prec
+    mpmath.mp.dps = ambient
+    try:
+        got = call_sut(ebb_calc.calculate_lm, steps, rate, accel, accum)
+    finally:
+        mpmath.mp.prec = saved
+    classes_after = "ambient_default" if ambient == 15 else "ambient_other"
+    ctx.classes[classes_after] += 1
     if tuple(got) != (t, pos, acc):
         ctx.fail("calculate_lm(%d, %d, %d, %r) = %r; recurrence reaches the budget first at tick %d with "
-                 "(position, accumulator) = (%d, %d)" % (steps, rate, accel, accum, tuple(got), t, pos, acc),
+                 "(position, accumulator) = (%d, %d)%s" % (steps, rate, accel, accum, tuple(got), t, pos, acc,
+                                                            "" if ambient == 15 else
+                                                            " [ambient mpmath precision: %d digits]" % ambient),
                  case)
     if not all(type(v) is int for v in got):
         ctx.fail("calculate_lm returned non-integers %r" % (got,), case)
@@ -120,6 +133,15 @@ def _mag(draw, lo, hi):
 
 @st.composite
 def cases(draw):
+    case = draw(moves())
+    amb = draw(st.sampled_from([15, 15, 15, 15, 30, 5, 60, 2]))
+    if amb != 15:
+        case["ambient"] = amb
+    return case
+
+
+@st.composite
+def moves(draw):
     mode = draw(st.sampled_from(["const", "same", "same", "oppose", "oppose", "oppose", "oppose_steps",
                                  "oppose_steps", "kstar1", "kstar1", "r1zero", "pre_tick1", "tiny",
                                  "tiny", "tiny", "cannot"]))
